@@ -962,6 +962,56 @@ func runC12(w *World, r *Report) {
 		}
 	}
 
+	r.Rule("C12.types-are-keyed-by-identity", "no table of the serializer (or of the type checks in package compose) is keyed by the printed name of a type: reflect.Type.String() is for messages, two distinct types can print the same (function-local types, a/model.Item and b/model.Item), and a cache keyed that way hands the second type the first one's field list — fields are left out silently", 0)
+	{
+		n := 0
+		for _, fn := range w.RepoFuncs("internal/serialization", "compose") {
+			instrs(fn, func(in ssa.Instruction) {
+				c, ok := in.(*ssa.Call)
+				if !ok || !c.Call.IsInvoke() || c.Call.Method.Name() != "String" || c.Call.Value.Type().String() != "reflect.Type" {
+					return
+				}
+				// used as a key?
+				asKey := ""
+				var visit func(v ssa.Value, d int)
+				visit = func(v ssa.Value, d int) {
+					if d > 4 || asKey != "" {
+						return
+					}
+					for _, ref := range *v.Referrers() {
+						switch x := ref.(type) {
+						case *ssa.Lookup:
+							if x.Index == v {
+								asKey = "a map lookup"
+							}
+						case *ssa.MapUpdate:
+							if x.Key == v {
+								asKey = "a map update"
+							}
+						case *ssa.MakeInterface:
+							visit(x, d+1)
+						case *ssa.BinOp:
+							if x.Op == token.ADD {
+								visit(x, d+1)
+							}
+						case *ssa.Call:
+							if strings.HasPrefix(calleeFullName(x), "(*sync.Map).") {
+								asKey = calleeFullName(x)
+							}
+						}
+					}
+				}
+				visit(c, 0)
+				if asKey != "" {
+					n++
+					r.Fail("C12.types-are-keyed-by-identity", fmt.Sprintf("%s keys a table by Type.String()", w.fname(fn)), c.Pos(), "the printed name of a type is the key of "+asKey+": distinct types that print the same share the entry — the second struct type to be marshalled gets the first one's field list and its other fields come back zero, without an error from Marshal or Unmarshal")
+				}
+			})
+		}
+		if n == 0 {
+			r.OK("C12.types-are-keyed-by-identity", "no table keyed by Type.String() in internal/serialization and compose", token.NoPos, "none")
+		}
+	}
 	r.Rule("C12.nil-form-needs-no-codec", "the encoder writes a nil pointer (outermost level) as the literal JSON null with the type's key, for EVERY registered type; the decoder answers that form itself: the external codec is reached with the raw bytes only where they were looked at first — the codec builds a decoder for the whole static type before it reads a byte and has none for bool- or struct-keyed maps, which the serializer supports through its own key encoding", 1)
 	{
 		iu := w.Fn("internal/serialization", "internalUnmarshal")
